@@ -1,13 +1,35 @@
 import SageModel.Proto
 import SageModel.Model.C01
+import SageModel.Model.C01Pipeline
+import SageModel.Model.C18
+import SageModel.Drv.C02
+import SageModel.Drv.C06
+import SageModel.Drv.C10
+import SageModel.Drv.C17
+import SageModel.Drv.C18
 
 /-! Driver op for C01.
 
 `e2e <cfg…> <fasta…> <files…> <planted…> | ok <tsv rows…> <pin rows…> <fragment rows…>`
 
-There is no model reply to compare with (the model of the whole pipeline is the composition of
-the other properties' models); the op evaluates the executable specification `RowOK` and the
-cross-row / cross-file clauses on the rows the real program wrote. -/
+Two independent judgements per run:
+
+* `spec` — the executable specification `RowOK` and the cross-row / cross-file clauses (Model/C01.lean), evaluated on
+  the rows the real program wrote (unchanged);
+* `agree` — the rows of `results.sage.tsv` against the rows of the COMPOSED MODEL `pipeline`
+  (Model/C01Pipeline.lean: C05 FASTA reader → C08 database (C05 digest, C06 forms, decoys) → C09 ions → C03 index;
+  C17 MGF reader → C10 processing → C02 search (C03 lookup, C04 scoring) → C04 feature fields), run at
+  `Float32`/`Float`. Rows are matched by (filename, scannr, rank). Compared exactly (bit patterns / text): proteins,
+  num_proteins, label, expmass, calcmass, charge, peptide_len, missed_cleavages, semi_enzymatic, isotope_error,
+  precursor_ppm, fragment_ppm, matched_peaks, longest_b, longest_y, scored_candidates, ms2_intensity,
+  matched_intensity_pct; `hyperscore` within 4 ulp (libm `ln`), `delta_next`/`delta_best` within
+  1e-12·max(1,|hs|+|delta|); the peptide column through its PARSED structure (`parsePeptide`: sequence, and every
+  modification value must denote the model's f32, `denotesF32`). Statistical columns, rt columns and psm ids are
+  not compared. A spectrum whose model run passes through a near-tie of hyperscores (≤ 8 ulp, not bit-identical:
+  the two libms may order them differently) or whose deisotoped peak list has a sort-key tie (`sort_unstable_by`)
+  is skipped when it differs, and counted (`ties=`).
+  Model reply: `rows=<model rows> compared=<rows compared> ties=<spectra skipped>`, or `diff:<column>@file:scan#rank`,
+  or `model-na:<reason>` (`agree := true`, nothing compared) for runs outside what is modelled / too large. -/
 namespace Sage.C01
 open Sage.Proto
 
@@ -136,11 +158,265 @@ def verdict (run : Run) (impl : List String) : String :=
   | [e] => "bad:program_failed_" ++ e
   | _ => "bad:unparsable_reply"
 
+/-! ## the composed model at `Float32` / `Float` -/
+
+abbrev F := Float32
+
+def fb (b : Nat) : F := Float32.ofBits b.toUInt32
+
+/-- the float-valued settings, read as `Float32` (the spec side reads them as exact rationals) -/
+structure CfgF where
+  minMass : F
+  maxMass : F
+  ptol : C03.Tol F
+  ftol : C03.Tol F
+
+def pTolF : P (Option (C03.Tol F)) := do
+  let k ← nat
+  let lo ← f32
+  let hi ← f32
+  pure (match k with | 0 => some (.ppm lo hi) | 1 => some (.da lo hi) | _ => none)
+
+/-- second pass over the configuration tokens -/
+def pCfgF : P (Option CfgF) := do
+  let _ ← bytes; let _ ← opt nat; let _ ← bool; let _ ← bool; let _ ← nat; let _ ← nat; let _ ← nat
+  let minMass ← f32; let maxMass ← f32
+  let _ ← list (do let _ ← bytes; let _ ← nat; pure ())
+  let _ ← list (do let _ ← bytes; let _ ← list nat; pure ())
+  let _ ← nat; let _ ← bytes; let _ ← bool
+  let ptol ← pTolF; let ftol ← pTolF
+  pure (do let p ← ptol; let f ← ftol; pure { minMass, maxMass, ptol := p, ftol := f })
+
+def arithF : Arith F Float := { E := C02.E32, K := C09.constsF, tle := C02.tle64 }
+
+def asciiKey (k : List UInt8) : Option (List Nat) := if k.all (· < 128) then some (k.map (·.toNat)) else none
+
+def allSomeL {γ : Type} : List (Option γ) → Option (List γ)
+  | [] => some []
+  | none :: _ => none
+  | some x :: xs => (allSomeL xs).map (x :: ·)
+
+def plexOf (n : Nat) : Option (C18.Plex Nat) :=
+  match n with
+  | 6 => some .tmt6 | 10 => some .tmt10 | 11 => some .tmt11 | 16 => some .tmt16 | 18 => some .tmt18 | _ => none
+
+/-- `min_deisotope_mz.unwrap_or(0.0)` of `read_processed_spectra` (TMT at MS2 level: heaviest reporter × (1 + 20e-6)) -/
+def minDeisoMzOf (tmt : Nat) : Option F :=
+  if tmt == 0 then some (Float32.ofNat 0) else
+  match plexOf tmt with
+  | none => none
+  | some plex =>
+    let labels := (C18.reporterMasses C18.tablesBits plex).map fb
+    some ((C18.minDeisotopeMz labels 2 (C18.c1F + C18.c2F)).getD (Float32.ofNat 0))
+
+/-- the configuration of the composed model; `Except` carries the `model-na` reason -/
+def mkPCfg (c : Cfg) (cf : CfgF) : Except String (PCfg F) := do
+  let par ← match ({ mc := some c.mc, minLen := some c.minLen, maxLen := some c.maxLen, cleaveAt := some c.cleave,
+                     restrict := c.restrict, cTerminal := some c.cterm, semi := some c.semi } : C05.Builder).toParams with
+    | some p => pure p
+    | none => throw "enzyme-rejected"
+  let sk ← match allSomeL (c.statics.map fun (k, m) => (asciiKey k).map fun k' => (k', m)) with
+    | some l => pure l | none => throw "non-ascii-mod-key"
+  let vk ← match allSomeL (c.vars.map fun (k, ms) => (asciiKey k).map fun k' => (k', ms)) with
+    | some l => pure l | none => throw "non-ascii-mod-key"
+  let minDeiso ← match minDeisoMzOf c.tmt with | some m => pure m | none => throw "unknown-tmt-plex"
+  if c.zLo ≥ 64 || c.zHi ≥ 64 || c.isoLo < -8 || c.isoHi > 8 || c.isoLo > c.isoHi then throw "charge-or-isotope-range" else
+  if (match c.maxFragCharge with | some m => decide (m ≥ 64) | none => false) then throw "max-fragment-charge" else
+  pure
+    { db := { par := par, tag := c.decoyTag, gen := c.genDecoys, h2o := C06.H2Of, table := C06.tableF,
+              vars := (C06.validateVar vk).map fun tm => (tm.1, fb tm.2),
+              statics := (C06.validate sk).map fun tm => (tm.1, fb tm.2),
+              maxVar := if c.maxVar == 0 then 1 else c.maxVar, lo := cf.minMass, hi := cf.maxMass }
+      kinds := [.b, .y]            -- `ion_kinds` default; the harness never sets it
+      minIonIndex := c.minIonIndex
+      bucket := c.bucket
+      search := { ptol := cf.ptol, ftol := cf.ftol, minMatched := c.minMatched, isoLo := c.isoLo, isoHi := c.isoHi,
+                  zLo := c.zLo, zHi := c.zHi, overrideCharge := c.overrideCharge, mfc := c.maxFragCharge,
+                  chimera := c.chimera, reportPsms := c.reportPsms, wideWindow := false,
+                  defaultIsoWin := .da (-2.4 : F) (2.4 : F) }
+      proc := { takeTopN := c.maxPeaks, deisotope := c.deisotope, minDeisoMz := minDeiso }
+      minPeaks := c.minPeaks }
+
+def specLines (f : List Spectrum) : List (C17.Line F) :=
+  mgfLines (f.map fun s => (strOfBytes s.title, fb s.pepmz, s.charge, fb s.rt, s.peaks.map fun p => (fb p.1, fb p.2)))
+
+/-- a-priori size of the database build (digests × variable-modification placements): the Lean build is
+    quadratic in places (target-set lookups), so large configurations are not model-compared -/
+def buildCost (pc : PCfg F) (targets : List (C05.Seq × C05.Seq)) : Nat :=
+  let ds := C08.fastaDigest pc.db.par pc.db.tag pc.db.gen targets
+  let nv := pc.db.vars.length
+  ds.foldl (fun acc d =>
+    let n := d.seq.length + 2
+    -- ≤ Σ_{k ≤ maxVar} C(n·nv, k) placements, bounded crudely
+    let sites := if nv == 0 then 0 else min (n * nv) 12
+    acc + 1 + (if pc.db.maxVar ≥ 2 then sites * sites / 2 + sites else sites)) 0
+
+def COST_LIMIT : Nat := 60000
+
+/-- cost of building / paging the model's fragment index (the model keeps fragments in a list: a page access is
+    linear), in list steps; the harness computes the same number from the real database to tag the run -/
+def indexCost (nfrags bucket : Nat) : Nat := nfrags * (nfrags / (max bucket 1) + 1)
+
+def INDEX_LIMIT : Nat := 200000000
+
+/-! ### comparison of one row -/
+
+def isoErrF (e : Int) : F := C02.E32.mul (C04.ofInt C02.E32 e) C02.E32.neutron
+
+def sameBits (x : F) (bits : Nat) : Bool := x.toBits.toNat == (fb bits).toBits.toNat
+
+def proteinsText (c : Cfg) (e : C08.DbPep F) : List UInt8 :=
+  let names := e.proteins.map fun s =>
+    (if e.decoy && c.genDecoys then c.decoyTag else []) ++ s.map (·.toUInt8)
+  match names with
+  | [] => []
+  | n :: rest => rest.foldl (fun acc x => acc ++ [59] ++ x) n
+
+def modDenotes (m : F) (q : Option Rat) : Bool :=
+  if m == (Float32.ofNat 0) then q.isNone else
+  match q with | some v => denotesF32 v m.toBits.toNat | none => false
+
+def optDenotes (m : Option F) (q : Option Rat) : Bool :=
+  match m, q with
+  | none, none => true
+  | some v, some w => denotesF32 w v.toBits.toNat
+  | _, _ => false
+
+/-- does the peptide cell denote the model's entry? -/
+def peptideAgrees (e : C08.DbPep F) (cell : List UInt8) : Bool :=
+  match parsePeptide cell with
+  | none => false
+  | some p =>
+    p.seq.map (·.toNat) == e.core.sequence &&
+    p.residues.length == e.core.mods.length &&
+    (p.residues.zip e.core.mods).all (fun rm => modDenotes rm.2 rm.1.2) &&
+    optDenotes e.core.nterm p.nterm && optDenotes e.core.cterm p.cterm
+
+def f64b (b : Nat) : Float := Float.ofBits b.toUInt64
+
+/-- first column in which the model's row and the implementation's row differ -/
+def rowDiff (c : Cfg) (m : ModelRow F Float) (r : Row) : Option String :=
+  if !peptideAgrees m.entry r.peptide then some "peptide" else
+  if proteinsText c m.entry != r.proteins then some "proteins" else
+  if m.entry.proteins.length != r.numProteins then some "num_proteins" else
+  if m.label != r.label then some "label" else
+  if !sameBits m.expmass r.expmass then some "expmass" else
+  if !sameBits m.calcmass r.calcmass then some "calcmass" else
+  if m.charge != r.charge then some "charge" else
+  if m.peptideLen != r.peptideLen then some "peptide_len" else
+  if m.missedCleavages != r.missedCleavages then some "missed_cleavages" else
+  if (if m.semiEnzymatic then 1 else 0) != r.semiEnzymatic then some "semi_enzymatic" else
+  if !sameBits m.isotopeError r.isotopeError then some "isotope_error" else
+  if !sameBits m.precursorPpm r.precursorPpm then some "precursor_ppm" else
+  if !sameBits m.fragmentPpm r.fragmentPpm then some "fragment_ppm" else
+  if !C02.near4 m.hyperscore (f64b r.hyperscore) then some "hyperscore" else
+  if !C02.deltaNear m.deltaNext (f64b r.deltaNext) m.hyperscore then some "delta_next" else
+  if !C02.deltaNear m.deltaBest (f64b r.deltaBest) m.hyperscore then some "delta_best" else
+  if m.matchedPeaks != r.matchedPeaks then some "matched_peaks" else
+  if m.longestB != r.longestB then some "longest_b" else
+  if m.longestY != r.longestY then some "longest_y" else
+  if m.scoredCandidates != r.scoredCandidates then some "scored_candidates" else
+  if !sameBits m.ms2Intensity r.ms2Intensity then some "ms2_intensity" else
+  if !sameBits m.matchedIntensityPct r.matchedIntensityPct then some "matched_intensity_pct" else
+  none
+
+def fileName (i : Nat) : List UInt8 := bytesOfStr ("file" ++ toString i ++ ".mgf")
+
+/-- is the model's answer for this spectrum not determined up to the stated allowances? (near-tie of hyperscores
+    among the candidates that decide the report, or a sort-key tie among deisotoped peaks) -/
+def undetermined (pc : PCfg F) (w : World F) (sp : C17.Spectrum F) : Bool :=
+  let raw := rawOf sp
+  (pc.proc.deisotope &&
+    C10.hasKeyTie (C10.deisotope raw.peaks (raw.charge.getD 3) (C10.Num.ofNat 10) pc.proc.minDeisoMz)) ||
+  match prepare pc sp with
+  | none => false
+  | some (peaks, _, prec) =>
+    let cfg := pc.search
+    let prelim := (C02.initialHits C02.E32 w.idx cfg peaks prec).prelim.toList
+    let vec (q : Array (C04.Peak F)) : List (C02.Cand Float) :=
+      C02.scoreVector C02.tle64 (C02.scoreCand C02.E32 cfg.ftol cfg.mfc w.info q) cfg.minMatched prelim
+    if cfg.chimera then
+      let psms := (C02.search C02.E32 C02.tle64 w.idx cfg w.info peaks prec).2
+      let rec go : List (C02.Psm Float) → Array (C04.Peak F) → Bool
+        | [], q => C02.hasNearTie ((vec q).take 2)
+        | p :: ps, q =>
+          C02.hasNearTie ((vec q).take 2) || go ps (C02.removeMatched C02.E32 cfg.ftol cfg.mfc w.info q p.pep p.charge)
+      go psms peaks.toArray
+    else C02.hasNearTie ((vec peaks.toArray).take (cfg.reportPsms + 1))
+
+structure Cmp where
+  rows : Nat := 0
+  compared : Nat := 0
+  ties : Nat := 0
+  diff : Option String := none
+
+/-- compare spectrum by spectrum -/
+def compareRun (c : Cfg) (pc : PCfg F) (w : World F) (files : List (List Spectrum)) (rows : List Row) : Cmp :=
+  let step (acc : Cmp × Nat) (fs : Nat × C17.Spectrum F) : Cmp × Nat :=
+    let (cmp, seen) := acc
+    if cmp.diff.isSome then acc else
+    let (fi, sp) := fs
+    let ms := spectrumRows arithF pc w fi sp
+    let fname := fileName fi
+    let scan := bytesOfStr sp.id
+    let impl := rows.filter fun r => r.filename == fname && r.scannr == scan
+    let d : Option String :=
+      if impl.length != ms.length then some "row_count" else
+      ms.findSome? fun m =>
+        match impl.filter (fun r => r.rank == m.rank) with
+        | [r] => rowDiff c m r
+        | _ => some "rank"
+    match d with
+    | none => ({ cmp with rows := cmp.rows + ms.length, compared := cmp.compared + ms.length }, seen + impl.length)
+    | some col =>
+      if undetermined pc w sp then ({ cmp with rows := cmp.rows + ms.length, ties := cmp.ties + 1 }, seen + impl.length)
+      else ({ cmp with diff := some (col ++ "@" ++ strOfBytes fname ++ ":" ++ sp.id) }, seen)
+  let specs : List (Nat × C17.Spectrum F) :=
+    files.zipIdx.flatMap fun fi => (C17.parseLines (specLines fi.1)).map fun sp => (fi.2, sp)
+  let (cmp, seen) := specs.foldl step ({}, 0)
+  if cmp.diff.isSome then cmp else
+  -- every implementation row belongs to a spectrum the model searched
+  if seen != rows.length then { cmp with diff := some "row_of_unsearched_spectrum" } else cmp
+
+def implRows (impl : List String) : Option (List Row) :=
+  match impl with
+  | "ok" :: rest => (runPrefix (list pRow) rest).map (·.1)
+  | _ => none
+
+/-- model reply and `agree` -/
+def modelCompare (run : Run) (args impl : List String) : String × Bool :=
+  match (Proto.runPrefix pCfgF args).bind (·.1) with
+  | none => ("model-na:tolerance-kind", true)
+  | some cf =>
+    match mkPCfg run.cfg cf with
+    | .error why => ("model-na:" ++ why, true)
+    | .ok pc =>
+      match C05.parse pc.db.tag pc.db.gen (fastaText run.fasta) with
+      | none => ("panic", impl == ["panic"])
+      | some targets =>
+        if buildCost pc targets > COST_LIMIT then ("model-na:too-large", true) else
+        match C08.buildDb pc.db targets with
+        | none => ("panic", impl == ["panic"])
+        | some db =>
+        let nfr := (ionsOf arithF pc db).length
+        if indexCost nfr pc.bucket > INDEX_LIMIT then ("model-na:too-large", true) else
+        match worldOf arithF pc db with      -- `buildWorld` = `buildDb` then `worldOf`
+        | none => ("panic", impl == ["panic"])
+        | some w =>
+          match implRows impl with
+          | none => ("rows-expected", false)
+          | some rows =>
+            let cmp := compareRun run.cfg pc w run.files rows
+            match cmp.diff with
+            | some d => ("diff:" ++ d, false)
+            | none => (s!"rows={cmp.rows} compared={cmp.compared} ties={cmp.ties} cost={buildCost pc targets} peps={w.peps.size} frags={w.idx.frags.length}", true)
+
 def handle (op : String) (args impl : List String) : Option Reply :=
   match op with
   | "e2e" => do
     let run ← Proto.run pRun args
-    pure { model := "spec-only", agree := true, spec := verdict run impl }
+    let (model, agree) := modelCompare run args impl
+    pure { model := model, agree := agree, spec := verdict run impl }
   | _ => none
 
 end Sage.C01
